@@ -1070,7 +1070,7 @@ def channels(ctx):
     batch = Batch()
     rng = ctx.rng("validator_run")
     pristine = gen_pristine(ctx, rng)
-    budget = 85 if not ctx.thorough else 740
+    budget = 75 if not ctx.thorough else 740
     t0 = time.time()
     done = run_sessions(app, pristine, chs, batch, limit_s=budget * .35)
     corrupted = []
